@@ -1,6 +1,9 @@
 package main
 
 import (
+	"path/filepath"
+	"os/exec"
+	"encoding/json"
 	"flag"
 	"fmt"
 	"os"
@@ -149,8 +152,121 @@ func cmdList(args []string) {
 	}
 }
 
-func cmdSelftest(args []string) { fmt.Println("not yet"); os.Exit(2) }
-func cmdReplay(args []string)   { fmt.Println("not yet"); os.Exit(2) }
+// cmdSelftest: must-fail corpus. Every entry of selftest/corpus.json is a change to /repo that breaks a property (reverts
+// of the repaired defects, confirmed seeded changes, hand-made canaries); it is applied to a scratch copy of the
+// working tree and the listed property checks must report a violation there. Exit 1 if any entry goes unnoticed.
+func cmdSelftest(args []string) {
+	fs := flag.NewFlagSet("selftest", flag.ExitOnError)
+	repo := fs.String("repo", "/repo", "repository directory")
+	only := fs.String("only", "", "run only entries whose name contains this substring")
+	fs.Parse(args)
+	vdir := verifDir()
+	b, err := os.ReadFile(filepath.Join(vdir, "selftest", "corpus.json"))
+	if err != nil {
+		fmt.Fprintln(os.Stderr, err)
+		os.Exit(2)
+	}
+	var corpus struct {
+		Entries []struct {
+			Name       string   `json:"name"`
+			Patch      string   `json:"patch"`
+			Properties []string `json:"properties"`
+			Expect     string   `json:"expect"`
+		} `json:"entries"`
+	}
+	if err := json.Unmarshal(b, &corpus); err != nil {
+		fmt.Fprintln(os.Stderr, err)
+		os.Exit(2)
+	}
+	self, _ := os.Executable()
+	missed := 0
+	for _, en := range corpus.Entries {
+		if *only != "" && !strings.Contains(en.Name, *only) {
+			continue
+		}
+		scratch, err := os.MkdirTemp("", "rtv-selftest-")
+		if err != nil {
+			fmt.Fprintln(os.Stderr, err)
+			os.Exit(2)
+		}
+		cp := exec.Command("rsync", "-a", "--exclude", ".git", *repo+"/", scratch+"/repo/")
+		if out, err := cp.CombinedOutput(); err != nil {
+			fmt.Fprintf(os.Stderr, "copy: %v %s\n", err, out)
+			os.Exit(2)
+		}
+		ap := exec.Command("git", "apply", "--unsafe-paths", "--directory="+scratch+"/repo", filepath.Join(vdir, en.Patch))
+		ap.Dir = scratch
+		if out, err := ap.CombinedOutput(); err != nil {
+			fmt.Printf("selftest %-28s SKIP (patch does not apply to the current tree: %s)\n", en.Name, strings.TrimSpace(string(out)))
+			os.RemoveAll(scratch)
+			continue
+		}
+		hit := false
+		var seen []string
+		for _, pr := range en.Properties {
+			c := exec.Command(self, "check", "--repo", scratch+"/repo", "--property", pr, "--tier", "quick")
+			c.Env = append(os.Environ(), "RTV_OUT_DIR="+scratch+"/out")
+			out, _ := c.CombinedOutput()
+			for _, ln := range strings.Split(string(out), "\n") {
+				if strings.HasPrefix(ln, "VIOLATION") && (en.Expect == "" || strings.Contains(ln, en.Expect)) {
+					hit = true
+					seen = append(seen, filepath.Base(strings.Fields(strings.SplitN(ln, "replay=", 2)[1])[0]))
+				}
+			}
+			if hit {
+				break
+			}
+		}
+		os.RemoveAll(scratch)
+		if hit {
+			fmt.Printf("selftest %-28s caught  %s\n", en.Name, seen[0])
+		} else {
+			missed++
+			fmt.Printf("selftest %-28s MISSED  (properties %v)\n", en.Name, en.Properties)
+		}
+	}
+	if missed > 0 {
+		os.Exit(1)
+	}
+}
+
+// cmdReplay: shows a replay file and re-derives the named obligation from the current tree: exit 1 if it still fails.
+func cmdReplay(args []string) {
+	fs := flag.NewFlagSet("replay", flag.ExitOnError)
+	repo := fs.String("repo", "/repo", "repository directory")
+	fs.Parse(args)
+	if fs.NArg() != 1 {
+		fmt.Fprintln(os.Stderr, "usage: rtv replay [-repo DIR] FILE")
+		os.Exit(2)
+	}
+	b, err := os.ReadFile(fs.Arg(0))
+	if err != nil {
+		fmt.Fprintln(os.Stderr, err)
+		os.Exit(2)
+	}
+	fmt.Print(string(b))
+	var obl, fn string
+	for _, ln := range strings.Split(string(b), "\n") {
+		if strings.HasPrefix(ln, "failed obligation: ") {
+			obl = strings.TrimPrefix(ln, "failed obligation: ")
+		}
+		if strings.HasPrefix(ln, "function: ") {
+			fn = strings.TrimPrefix(ln, "function: ")
+		}
+	}
+	if obl == "" || fn == "" {
+		fmt.Println("\n(no obligation recorded in this file: nothing to re-derive)")
+		os.Exit(1)
+	}
+	self, _ := os.Executable()
+	fmt.Printf("\n--- re-deriving %s from %s ---\n", obl, *repo)
+	c := exec.Command(self, "func", "-repo", *repo, "-t", "60", "-only", lockName(obl), fn)
+	out, _ := c.CombinedOutput()
+	fmt.Print(string(out))
+	if strings.Contains(string(out), "FAIL") || strings.Contains(string(out), "ERROR") {
+		os.Exit(1)
+	}
+}
 
 var rePathVar = regexp.MustCompile(`\(define-fun (f\d+)_r(\d+)(?:!\d+)? \(\) Bool\s+true\)`)
 
